@@ -199,3 +199,36 @@ Section ParseRedact.
     redact_hpu (parse_hpu ((u ++ 58 :: p2) ++ 64 :: (h ++ 58 :: port))).
   Proof. intros. rewrite !parse_redact_hpu by assumption. reflexivity. Qed.
 End ParseRedact.
+
+(* ================================================================== --log-http: a named module keeps its mode *)
+Local Opaque httplog_named_always_marks_changed.
+Section LogModes.
+  Hypothesis Hm : httplog_named_always_marks_changed = true.
+
+  Lemma mode_after_named cur m src x : find_named m src = Some x -> mode_after cur m src = x.
+  Proof. intro H. unfold mode_after. rewrite Hm, H. reflexivity. Qed.
+
+  Lemma mode_after_default cur m src d : find_named m src = None -> last_default src = Some d -> mode_after cur m src = d.
+  Proof. intros H1 H2. unfold mode_after. rewrite Hm, H1, H2. reflexivity. Qed.
+
+  (* whatever unnamed defaults come before or after, in the same or in other occurrences *)
+  Lemma named_mode_holds m x : forall calls done cur,
+    calls <> [] -> find_named m (done ++ concat calls) = Some x -> run_sets cur m done calls = x.
+  Proof.
+    induction calls as [|o r IH]; intros done cur Hne H; [contradiction|].
+    destruct r as [|o' r'].
+    - cbn [run_sets]. cbn [concat] in H. rewrite app_nil_r in H. apply mode_after_named. exact H.
+    - cbn [run_sets]. apply IH; [discriminate|].
+      cbn [concat] in H. rewrite app_assoc in H. exact H.
+  Qed.
+
+  Lemma unnamed_gets_last_default m d : forall calls done cur,
+    calls <> [] -> find_named m (done ++ concat calls) = None -> last_default (done ++ concat calls) = Some d ->
+    run_sets cur m done calls = d.
+  Proof.
+    induction calls as [|o r IH]; intros done cur Hne H1 H2; [contradiction|].
+    destruct r as [|o' r'].
+    - cbn [run_sets]. cbn [concat] in H1, H2. rewrite app_nil_r in H1, H2. apply mode_after_default; assumption.
+    - cbn [run_sets]. apply IH; [discriminate| |]; cbn [concat] in H1, H2; rewrite app_assoc in *; assumption.
+  Qed.
+End LogModes.
